@@ -95,7 +95,9 @@ func Load(patterns ...string) (*Loader, error) {
 			continue
 		}
 		cs := &ContractSet{ByKey: map[string]*Contract{}, Funcs: map[string]*Contract{}}
-		for _, f := range p.CompiledGoFiles {
+		files := append([]string{}, p.CompiledGoFiles...)
+		sort.Strings(files) // verif_contracts.go before the later verif_<x>.go files (override/extend refer to earlier files)
+		for _, f := range files {
 			if !strings.HasPrefix(filepath.Base(f), "verif_") {
 				continue
 			}
